@@ -748,7 +748,7 @@ func replayFamily(behs [][]map[string]any) []Scenario {
 var hostileClasses = []string{"wrongdir", "early-heartbeat", "unknown-type", "empty-packet", "v3-trunc-len", "v3-inflated-len", "v3-neg-len",
 	"v3bin-garbage", "bad-utf8", "bad-base64", "octet-v4", "odd-method", "huge-query", "jsonp-garbage", "ws-binary-on-b64", "ws-empty",
 	"ws-control", "ws-after-close", "post-after-close", "eio-mismatch-upgrade", "garbage-body", "double-colon", "many-packets",
-	"probe-repeat", "probe-then-silence", "wt-bad-handshake"}
+	"probe-repeat", "probe-then-silence", "wt-bad-handshake", "bad-accept-encoding", "bad-headers"}
 
 func cpuNow() time.Duration {
 	var ru syscall.Rusage
@@ -929,6 +929,50 @@ func (sc *Script) hostile(c *cliSess, class string) int {
 			w.dialWTRaw(&Sess{Proto: 4, Sid: "x"}, f, nil)
 			sc.settle()
 			n += len(f)
+		}
+		return n
+	case "bad-accept-encoding":
+		// a malformed Accept-Encoding on the poll that finds a response large enough to be compressed waiting for it
+		// (the header is parsed by the transport's writer goroutine, which no net/http recover protects)
+		if c.Kind != "polling" {
+			return 0
+		}
+		aes := []string{"gzip;q=", "gzip;q", ";q=0", "gzip;;q=0", ",,,", "gzip;q=abc", "gzip;q=-1", "gzip;q=1e999", "gzip; q = ", "\tgzip ;", ";", "=",
+			"gzip;q=0.00000000000000000000000000001", "deflate;q=;br;q=", "br;q=\"0\"", "zstd;q=0;q=", "gzip;level=9;q=", strings.Repeat("gzip;q=,", 2000)}
+		n, first := 0, sc.r.Intn(len(aes))
+		for k := 0; k < 6; k++ {
+			ae := aes[(first+k*3)%len(aes)]
+			if c.poll != nil { // let the outstanding poll be answered first
+				w.Send(sid, SendOpt{Size: 3})
+				sc.settle()
+			}
+			w.Send(sid, SendOpt{Size: 1500 + sc.r.Intn(3000)})
+			sc.settle()
+			if c.poll != nil || c.dead || w.Sock(sid) == nil || w.Sock(sid).ReadyState() != "open" {
+				break
+			}
+			c.poll = w.StartReq("poll", s, ReqOpt{Hdr: http.Header{"Accept-Encoding": []string{ae}}})
+			sc.settle()
+			n += len(ae)
+		}
+		return n
+	case "bad-headers":
+		// other client-controlled headers the server looks at
+		hs := []http.Header{
+			{"Content-Type": []string{""}}, {"Content-Type": []string{";;;"}}, {"Content-Type": []string{"application/octet-stream;" + strings.Repeat("x", 5000)}},
+			{"Origin": []string{"null"}}, {"Origin": []string{strings.Repeat("a", 9000)}}, {"Cookie": []string{"io=" + strings.Repeat("=", 500)}},
+			{"Content-Length": []string{"-5"}}, {"Connection": []string{"upgrade"}, "Upgrade": []string{"h2c"}}, {"User-Agent": []string{"\u2028;MSIE"}},
+			{"Accept-Encoding": []string{"gzip"}, "Accept": []string{"\x00"}},
+		}
+		h := hs[sc.r.Intn(len(hs))]
+		n := 0
+		for _, v := range h {
+			n += len(v[0])
+		}
+		if c.Kind == "polling" {
+			w.StartReq("post", s, ReqOpt{Method: "POST", Body: []byte("4hdr"), Hdr: h})
+		} else {
+			w.StartReq("other", s, ReqOpt{Method: "GET", Hdr: h})
 		}
 		return n
 	case "garbage-body":
